@@ -1,9 +1,9 @@
 (* C08 - connection close handshake.
    This file only pins statements. *)
-From Amq Require Import Lib.Base Gen.Consts Model.Wire Model.Frames Model.OutBuf Model.Collector Model.Slots Model.Core Spec.Slots Spec.Content Proofs.Slots Proofs.OutBuf Proofs.Collector Proofs.CoreContent Proofs.CoreInv Proofs.CoreMore Check.Core Proofs.Examples Model.Close Proofs.Close Lib.RsResult Gen.SrcSeal Proofs.OutBufSrc Lib.RsVal Gen.SrcWrite Proofs.WriteSrc.
+From Amq Require Import Lib.Base Gen.Consts Model.Wire Model.Frames Model.OutBuf Model.Collector Model.Slots Model.Core Spec.Slots Spec.Content Proofs.Slots Proofs.OutBuf Proofs.Collector Proofs.CoreContent Proofs.CoreInv Proofs.CoreMore Check.Core Proofs.Examples Model.Close Proofs.Close Lib.RsResult Gen.SrcSeal Proofs.OutBufSrc Lib.RsVal Gen.SrcWrite Proofs.WriteSrc Gen.SrcClose Proofs.CloseSrc.
 
 (* the client's Connection.Close is appended behind everything queued before and the buffer is sealed in the same step *)
-Theorem C08_client_close : forall (buf : bytes) (c : core), ob_sealed (c_out c) = false -> channel_message 0 (MsgConnClose buf) c = (OOk, seal (push_out c buf)) /\ ob (c_out (seal (push_out c buf))) = ob (c_out c) ++ buf /\ ob_sealed (c_out (seal (push_out c buf))) = true.
+Theorem C08_client_close : forall (buf : bytes) (c : core), ob_sealed (c_out c) = false -> channel_message 0 (MsgConnClose buf) c = (OOk, seal (push_out c buf)) /\ ob (c_out (seal (push_out c buf))) = (ob (c_out c) ++ buf)%list /\ ob_sealed (c_out (seal (push_out c buf))) = true.
 Proof. exact client_close_seals. Qed.
 
 (* once sealed, whatever a handle submits - data or a second close - is dropped: the state does not change at all *)
@@ -11,15 +11,15 @@ Theorem C08_sealed_drops : forall (n : N) (buf : bytes) (c : core), ob_sealed (c
 Proof. exact sealed_drops_sends. Qed.
 
 (* appends go to the end of the buffer, and nowhere once it is sealed *)
-Theorem C08_append_spec : forall (o : outbuf) (bs : bytes), ob (ob_append o bs) = (if ob_sealed o then ob o else ob o ++ bs) /\ ob_sealed (ob_append o bs) = ob_sealed o.
+Theorem C08_append_spec : forall (o : outbuf) (bs : bytes), ob (ob_append o bs) = (if ob_sealed o then ob o else (ob o ++ bs)%list) /\ ob_sealed (ob_append o bs) = ob_sealed o.
 Proof. exact append_spec. Qed.
 
 (* the write loop: bytes written followed by bytes kept = bytes buffered, seal flag untouched, for every transport behaviour *)
-Theorem C08_write_conserves : forall (o : outbuf) (oracle : list wr) (w : bytes) (r : wres) (o' : outbuf) (rest : list wr), write_to_stream o oracle = (w, r, o', rest) -> ob_sealed o' = ob_sealed o /\ match r with | WOk => w ++ ob o' = ob o | WIoErr => ob o' = ob o /\ (exists k : nat, w = firstn k (ob o)) | WStuck => True end.
+Theorem C08_write_conserves : forall (o : outbuf) (oracle : list wr) (w : bytes) (r : wres) (o' : outbuf) (rest : list wr), write_to_stream o oracle = (w, r, o', rest) -> ob_sealed o' = ob_sealed o /\ match r with | WOk => (w ++ ob o')%list = ob o | WIoErr => ob o' = ob o /\ (exists k : nat, w = firstn k (ob o)) | WStuck => True end.
 Proof. exact write_conserves. Qed.
 
 (* the server's Connection.Close, for every code and text, whatever the notifications lead to: CloseOk is queued behind everything queued before, the buffer is sealed, the phase records code and text, every slot is gone, the channel-0 sources are gone *)
-Theorem C08_server_close : forall (code : N) (text dbg : str) (c : core) (o : outcome) (c' : core), steady c -> ob_sealed (c_out c) = false -> process c (FMethod 0 (MConnClose code text), dbg) = (o, c') -> c_phase c' = PServerClosing code text /\ ob (c_out c') = ob (c_out c) ++ ser_conn_close_ok /\ ob_sealed (c_out c') = true /\ c_slots c' = [] /\ c_ch0 c' = None.
+Theorem C08_server_close : forall (code : N) (text dbg : str) (c : core) (o : outcome) (c' : core), steady c -> ob_sealed (c_out c) = false -> process c (FMethod 0 (MConnClose code text), dbg) = (o, c') -> c_phase c' = PServerClosing code text /\ ob (c_out c') = (ob (c_out c) ++ ser_conn_close_ok)%list /\ ob_sealed (c_out c') = true /\ c_slots c' = [] /\ c_ch0 c' = None.
 Proof. exact server_close_effect. Qed.
 
 (* after a server close (or a client exception) the loop ends exactly when the buffer has been flushed *)
@@ -43,16 +43,20 @@ Theorem C08_close_ok_iff : forall (req : req_res) (io : io_end), fst (close_impl
 Proof. exact close_ok_iff. Qed.
 
 (* THE SEAL RULE IS THE SOURCE'S: SealableOutputBuffer::append / push_method / push_heartbeat / seal (src/serialize.rs) are translated into coq/Gen/Src.v on every run by tools/rs2v.py; each of the three hands its argument to the inner buffer exactly when the buffer is not sealed, seal sets the flag - and the model's ob_append / ob_seal follow the same rule: 'nothing submitted after the close point is ever written' rests on this guard, and a change to any of the four functions changes Gen/Src.v and this obligation *)
-Theorem C08_seal_source_is_model : forall (o : outbuf) (bs : bytes) (ch : N), gen_SealableOutputBuffer_append (b2n (ob_sealed o)) = RsOk "SealableOutputBuffer_append" [("self.buf.append#called", b2n (negb (ob_sealed o)))] /\ gen_SealableOutputBuffer_push_method (b2n (ob_sealed o)) ch = RsOk "SealableOutputBuffer_push_method" [("self.buf.push_method#called", b2n (negb (ob_sealed o)))] /\ gen_SealableOutputBuffer_push_heartbeat (b2n (ob_sealed o)) = RsOk "SealableOutputBuffer_push_heartbeat" [("self.buf.push_heartbeat#called", b2n (negb (ob_sealed o)))] /\ gen_SealableOutputBuffer_seal = RsOk "SealableOutputBuffer_seal" [("self.sealed:=", 1)] /\ ob (ob_append o bs) = (if negb (ob_sealed o) then ob o ++ bs else ob o) /\ ob_sealed (ob_append o bs) = ob_sealed o /\ ob_sealed (ob_seal o) = true /\ ob (ob_seal o) = ob o.
+Theorem C08_seal_source_is_model : forall (o : outbuf) (bs : bytes) (ch : N), gen_SealableOutputBuffer_append (b2n (ob_sealed o)) = RsOk "SealableOutputBuffer_append" [("self.buf.append#called", b2n (negb (ob_sealed o)))] /\ gen_SealableOutputBuffer_push_method (b2n (ob_sealed o)) ch = RsOk "SealableOutputBuffer_push_method" [("self.buf.push_method#called", b2n (negb (ob_sealed o)))] /\ gen_SealableOutputBuffer_push_heartbeat (b2n (ob_sealed o)) = RsOk "SealableOutputBuffer_push_heartbeat" [("self.buf.push_heartbeat#called", b2n (negb (ob_sealed o)))] /\ gen_SealableOutputBuffer_seal = RsOk "SealableOutputBuffer_seal" [("self.sealed:=", 1)] /\ ob (ob_append o bs) = (if negb (ob_sealed o) then (ob o ++ bs)%list else ob o) /\ ob_sealed (ob_append o bs) = ob_sealed o /\ ob_sealed (ob_seal o) = true /\ ob (ob_seal o) = ob o.
 Proof. exact seal_source_is_model. Qed.
 
 (* ... and the write loop that flushes the sealed buffer is, as translated from the source on every run (Gen/SrcWrite.v), the model's write_to_stream: what is written plus what stays buffered is what was buffered (seed C01h made drain_written refuse once sealed: the translated loop is unchanged there, the correspondence finds it) *)
-Theorem C08_write_source_is_model : forall (stream : val) (o : outbuf) (oracle : list wr) (wire : bytes), snd (fst (fst (write_to_stream o oracle))) <> WStuck -> gen_Inner_write_to_stream ext_model ext_st_model (S (Datatypes.length oracle)) (enc_self (ob o) oracle wire) stream = (let '(ws, r, o', rest) := write_to_stream o oracle in (enc_self (ob o') rest (wire ++ ws), enc_wres r)).
+Theorem C08_write_source_is_model : forall (stream : val) (o : outbuf) (oracle : list wr) (wire : bytes), snd (fst (fst (write_to_stream o oracle))) <> WStuck -> gen_Inner_write_to_stream ext_model WriteSrc.ext_st_model (S (Datatypes.length oracle)) (WriteSrc.enc_self (ob o) oracle wire) stream = (let '(ws, r, o', rest) := write_to_stream o oracle in (WriteSrc.enc_self (ob o') rest (wire ++ ws)%list, enc_wres r)).
 Proof. exact write_source_is_model. Qed.
 
 (* ... and the translated write loop conserves the stream: with a sealed buffer, bytes written + bytes buffered never changes *)
-Theorem C08_write_source_conserves : forall (stream : val) (o : outbuf) (oracle : list wr) (wire : bytes), snd (fst (fst (write_to_stream o oracle))) <> WStuck -> exists (ws : list N) (buf' : bytes) (rest : list wr) (r : wres), gen_Inner_write_to_stream ext_model ext_st_model (S (Datatypes.length oracle)) (enc_self (ob o) oracle wire) stream = (enc_self buf' rest (wire ++ ws), enc_wres r) /\ match r with | WOk => (wire ++ ws) ++ buf' = wire ++ ob o | WIoErr => buf' = ob o /\ (exists k : nat, ws = firstn k (ob o)) | WStuck => False end.
+Theorem C08_write_source_conserves : forall (stream : val) (o : outbuf) (oracle : list wr) (wire : bytes), snd (fst (fst (write_to_stream o oracle))) <> WStuck -> exists (ws : list N) (buf' : bytes) (rest : list wr) (r : wres), gen_Inner_write_to_stream ext_model WriteSrc.ext_st_model (S (Datatypes.length oracle)) (WriteSrc.enc_self (ob o) oracle wire) stream = (WriteSrc.enc_self buf' rest (wire ++ ws)%list, enc_wres r) /\ match r with | WOk => ((wire ++ ws) ++ buf')%list = (wire ++ ob o)%list | WIoErr => buf' = ob o /\ (exists k : nat, ws = firstn k (ob o)) | WStuck => False end.
 Proof. exact write_source_conserves. Qed.
+
+(* ... and the translated Connection::close_impl is the model's: the request first, then the join, the thread's verdict first *)
+Theorem C08_close_source_is_model : forall (have : bool) (req : req_res) (io : io_end), gen_Connection_close_impl (ext_st_model req io) (enc_self have false) = (enc_self false (snd (close_impl have req io)), enc_res (fst (close_impl have req io))).
+Proof. exact close_source_is_model. Qed.
 
 (* non-vacuity: a client close in a reachable state - the Close is queued and seals the buffer,
    the server's CloseOk completes it: ClientClosed, done, result Ok, every queue told *)
@@ -63,19 +67,20 @@ Example C08_example :
   map fst (c_slots c2) = [].
 Proof. vm_compute. repeat split. Qed.
 
-Check C08_client_close : forall (buf : bytes) (c : core), ob_sealed (c_out c) = false -> channel_message 0 (MsgConnClose buf) c = (OOk, seal (push_out c buf)) /\ ob (c_out (seal (push_out c buf))) = ob (c_out c) ++ buf /\ ob_sealed (c_out (seal (push_out c buf))) = true.
+Check C08_client_close : forall (buf : bytes) (c : core), ob_sealed (c_out c) = false -> channel_message 0 (MsgConnClose buf) c = (OOk, seal (push_out c buf)) /\ ob (c_out (seal (push_out c buf))) = (ob (c_out c) ++ buf)%list /\ ob_sealed (c_out (seal (push_out c buf))) = true.
 Check C08_sealed_drops : forall (n : N) (buf : bytes) (c : core), ob_sealed (c_out c) = true -> channel_message n (MsgSend buf) c = (OOk, c) /\ channel_message n (MsgConnClose buf) c = (OOk, c).
-Check C08_append_spec : forall (o : outbuf) (bs : bytes), ob (ob_append o bs) = (if ob_sealed o then ob o else ob o ++ bs) /\ ob_sealed (ob_append o bs) = ob_sealed o.
-Check C08_write_conserves : forall (o : outbuf) (oracle : list wr) (w : bytes) (r : wres) (o' : outbuf) (rest : list wr), write_to_stream o oracle = (w, r, o', rest) -> ob_sealed o' = ob_sealed o /\ match r with | WOk => w ++ ob o' = ob o | WIoErr => ob o' = ob o /\ (exists k : nat, w = firstn k (ob o)) | WStuck => True end.
-Check C08_server_close : forall (code : N) (text dbg : str) (c : core) (o : outcome) (c' : core), steady c -> ob_sealed (c_out c) = false -> process c (FMethod 0 (MConnClose code text), dbg) = (o, c') -> c_phase c' = PServerClosing code text /\ ob (c_out c') = ob (c_out c) ++ ser_conn_close_ok /\ ob_sealed (c_out c') = true /\ c_slots c' = [] /\ c_ch0 c' = None.
+Check C08_append_spec : forall (o : outbuf) (bs : bytes), ob (ob_append o bs) = (if ob_sealed o then ob o else (ob o ++ bs)%list) /\ ob_sealed (ob_append o bs) = ob_sealed o.
+Check C08_write_conserves : forall (o : outbuf) (oracle : list wr) (w : bytes) (r : wres) (o' : outbuf) (rest : list wr), write_to_stream o oracle = (w, r, o', rest) -> ob_sealed o' = ob_sealed o /\ match r with | WOk => (w ++ ob o')%list = ob o | WIoErr => ob o' = ob o /\ (exists k : nat, w = firstn k (ob o)) | WStuck => True end.
+Check C08_server_close : forall (code : N) (text dbg : str) (c : core) (o : outcome) (c' : core), steady c -> ob_sealed (c_out c) = false -> process c (FMethod 0 (MConnClose code text), dbg) = (o, c') -> c_phase c' = PServerClosing code text /\ ob (c_out c') = (ob (c_out c) ++ ser_conn_close_ok)%list /\ ob_sealed (c_out c') = true /\ c_slots c' = [] /\ c_ch0 c' = None.
 Check C08_done : forall c : core, (exists (code : N) (text : str), c_phase c = PServerClosing code text) \/ c_phase c = PClientException -> ob_sealed (c_out c) = true -> (is_done c = DDone <-> ob (c_out c) = []) /\ (ob (c_out c) <> [] -> is_done c = DNotDone).
 Check C08_results : forall c : core, (forall (code : N) (text : str), c_phase c = PServerClosing code text -> final_result c = OErr (EServerClosedConnection code text)) /\ (c_phase c = PClientException -> final_result c = OErr EClientException) /\ (c_phase c = PClientClosed -> final_result c = OOk /\ is_done c = DDone).
 Check C08_close_ok_then_anything : forall (c : core) (fs : list dframe) (t : rterm) (o2 : outcome) (c2 : core), process_all c fs = (o2, c2) -> c_phase c2 = PClientClosed -> (forall site : N, o2 <> OPanic site) -> handle_event c (EvStream None (Some (fs, t))) = (OOk, c2, []).
 Check C08_close_reports_root_cause : forall (req : req_res) (e : N), fst (close_impl true req (IoErr e)) = CErr e.
 Check C08_close_ok_iff : forall (req : req_res) (io : io_end), fst (close_impl true req io) = COk <-> io = IoOk /\ req = ReqOk.
-Check C08_seal_source_is_model : forall (o : outbuf) (bs : bytes) (ch : N), gen_SealableOutputBuffer_append (b2n (ob_sealed o)) = RsOk "SealableOutputBuffer_append" [("self.buf.append#called", b2n (negb (ob_sealed o)))] /\ gen_SealableOutputBuffer_push_method (b2n (ob_sealed o)) ch = RsOk "SealableOutputBuffer_push_method" [("self.buf.push_method#called", b2n (negb (ob_sealed o)))] /\ gen_SealableOutputBuffer_push_heartbeat (b2n (ob_sealed o)) = RsOk "SealableOutputBuffer_push_heartbeat" [("self.buf.push_heartbeat#called", b2n (negb (ob_sealed o)))] /\ gen_SealableOutputBuffer_seal = RsOk "SealableOutputBuffer_seal" [("self.sealed:=", 1)] /\ ob (ob_append o bs) = (if negb (ob_sealed o) then ob o ++ bs else ob o) /\ ob_sealed (ob_append o bs) = ob_sealed o /\ ob_sealed (ob_seal o) = true /\ ob (ob_seal o) = ob o.
-Check C08_write_source_is_model : forall (stream : val) (o : outbuf) (oracle : list wr) (wire : bytes), snd (fst (fst (write_to_stream o oracle))) <> WStuck -> gen_Inner_write_to_stream ext_model ext_st_model (S (Datatypes.length oracle)) (enc_self (ob o) oracle wire) stream = (let '(ws, r, o', rest) := write_to_stream o oracle in (enc_self (ob o') rest (wire ++ ws), enc_wres r)).
-Check C08_write_source_conserves : forall (stream : val) (o : outbuf) (oracle : list wr) (wire : bytes), snd (fst (fst (write_to_stream o oracle))) <> WStuck -> exists (ws : list N) (buf' : bytes) (rest : list wr) (r : wres), gen_Inner_write_to_stream ext_model ext_st_model (S (Datatypes.length oracle)) (enc_self (ob o) oracle wire) stream = (enc_self buf' rest (wire ++ ws), enc_wres r) /\ match r with | WOk => (wire ++ ws) ++ buf' = wire ++ ob o | WIoErr => buf' = ob o /\ (exists k : nat, ws = firstn k (ob o)) | WStuck => False end.
+Check C08_seal_source_is_model : forall (o : outbuf) (bs : bytes) (ch : N), gen_SealableOutputBuffer_append (b2n (ob_sealed o)) = RsOk "SealableOutputBuffer_append" [("self.buf.append#called", b2n (negb (ob_sealed o)))] /\ gen_SealableOutputBuffer_push_method (b2n (ob_sealed o)) ch = RsOk "SealableOutputBuffer_push_method" [("self.buf.push_method#called", b2n (negb (ob_sealed o)))] /\ gen_SealableOutputBuffer_push_heartbeat (b2n (ob_sealed o)) = RsOk "SealableOutputBuffer_push_heartbeat" [("self.buf.push_heartbeat#called", b2n (negb (ob_sealed o)))] /\ gen_SealableOutputBuffer_seal = RsOk "SealableOutputBuffer_seal" [("self.sealed:=", 1)] /\ ob (ob_append o bs) = (if negb (ob_sealed o) then (ob o ++ bs)%list else ob o) /\ ob_sealed (ob_append o bs) = ob_sealed o /\ ob_sealed (ob_seal o) = true /\ ob (ob_seal o) = ob o.
+Check C08_write_source_is_model : forall (stream : val) (o : outbuf) (oracle : list wr) (wire : bytes), snd (fst (fst (write_to_stream o oracle))) <> WStuck -> gen_Inner_write_to_stream ext_model WriteSrc.ext_st_model (S (Datatypes.length oracle)) (WriteSrc.enc_self (ob o) oracle wire) stream = (let '(ws, r, o', rest) := write_to_stream o oracle in (WriteSrc.enc_self (ob o') rest (wire ++ ws)%list, enc_wres r)).
+Check C08_write_source_conserves : forall (stream : val) (o : outbuf) (oracle : list wr) (wire : bytes), snd (fst (fst (write_to_stream o oracle))) <> WStuck -> exists (ws : list N) (buf' : bytes) (rest : list wr) (r : wres), gen_Inner_write_to_stream ext_model WriteSrc.ext_st_model (S (Datatypes.length oracle)) (WriteSrc.enc_self (ob o) oracle wire) stream = (WriteSrc.enc_self buf' rest (wire ++ ws)%list, enc_wres r) /\ match r with | WOk => ((wire ++ ws) ++ buf')%list = (wire ++ ob o)%list | WIoErr => buf' = ob o /\ (exists k : nat, ws = firstn k (ob o)) | WStuck => False end.
+Check C08_close_source_is_model : forall (have : bool) (req : req_res) (io : io_end), gen_Connection_close_impl (ext_st_model req io) (enc_self have false) = (enc_self false (snd (close_impl have req io)), enc_res (fst (close_impl have req io))).
 
 Print Assumptions C08_client_close.
 Print Assumptions C08_sealed_drops.
@@ -90,4 +95,5 @@ Print Assumptions C08_close_ok_iff.
 Print Assumptions C08_seal_source_is_model.
 Print Assumptions C08_write_source_is_model.
 Print Assumptions C08_write_source_conserves.
+Print Assumptions C08_close_source_is_model.
 Print Assumptions C08_example.
